@@ -1,18 +1,18 @@
-SPECIFICATION Spec
+SPECIFICATION LiveSpec
 CONSTANTS
-  Pods = {1, 2}
+  Pods = {1, 2, 3}
   Reqs = {1, 2, 3}
   Slots = {1}
   Addrs = {1, 2, 3}
   Cap = 3
   Batch = 1
-  MaxIdle = 0
+  MaxIdle = 2
   FixCollector = TRUE
   FixPinned = TRUE
   FixKeep = TRUE
   FixDangling = TRUE
   FixABA = TRUE
-  Healthy = FALSE
-  DriftOn = TRUE
-INVARIANTS Exclusive NeverUnassignHeld NeverDeleteInUse HeldBacked QuotaAddr NoGhostOwner TrackedEqualsCloud
+  Healthy = TRUE
+  DriftOn = FALSE
+PROPERTY NoStuckWaiter
 CHECK_DEADLOCK FALSE
